@@ -160,7 +160,7 @@ func (r *Runner) worker() {
 			if hr.witSig == nil {
 				hr.witSig = map[string]bool{}
 			}
-			if !hr.witSig[sig] {
+			if !hr.witSig[sig] || os.Getenv("SYMGO_ALLWIT") != "" {
 				hr.witSig[sig] = true
 				hr.Witnesses = append(hr.Witnesses, *wit)
 			}
@@ -197,7 +197,7 @@ func (r *Runner) needWitness(h string, choices map[string]int) bool {
 	if len(hr.Witnesses) >= r.cfg.Witnesses {
 		return false
 	}
-	return !hr.witSig[fmt.Sprint(choices)]
+	return !hr.witSig[fmt.Sprint(choices)] || os.Getenv("SYMGO_ALLWIT") != ""
 }
 
 func (r *Runner) runPath(solver *Solver, tt *TermTable, j job) (st *Stats, pending [][]int, viol []Violation, witness *Violation, inconclusive []string) {
